@@ -351,6 +351,13 @@ class TypeRef:
     def __repr__(self):
         return "<type %s>" % self.name
 
+    # builtin types are singletons: `type(x) is bytes`, `type(x) in (bytes, bytearray)` compare them by identity / equality
+    def __eq__(self, other):
+        return isinstance(other, TypeRef) and other.name == self.name
+
+    def __hash__(self):
+        return hash(("TypeRef", self.name))
+
 
 class ModuleRef:
     def __init__(self, dotted):
